@@ -107,6 +107,7 @@ let rec ex_of (x : sx) : string Shortcuts.ex =
   match x with
   | Node [Atom "N"; n] -> Shortcuts.ENum (num n)
   | Node (Atom "V" :: Atom name :: idx) -> Shortcuts.EVar (name, Stdlib.List.map ex_of idx)
+  | Node [Atom "."; Atom f] -> Shortcuts.EField f
   | Node [Atom o; l; r] -> Shortcuts.EInfix (op_of o, ex_of l, ex_of r)
   | _ -> failwith "sx: bad expression"
 
@@ -126,6 +127,7 @@ let rec show_ex (e : string Shortcuts.ex) =
   | Shortcuts.ENum n -> Printf.sprintf "(N %d)" (int_of_nat n)
   | Shortcuts.EVar (x, idx) -> show_var x idx
   | Shortcuts.EInfix (o, l, r) -> Printf.sprintf "(%s %s %s)" (name_of_op o) (show_ex l) (show_ex r)
+  | Shortcuts.EField f -> Printf.sprintf "(. %s)" f
 and show_var x idx =
   Printf.sprintf "(V %s%s)" x (Stdlib.String.concat "" (Stdlib.List.map (fun e -> " " ^ show_ex e) idx))
 
